@@ -1,4 +1,4 @@
-/* program h0298i mode CUDA : for (unsigned int i = (b & 15) << 1; -a <= i; i -= s; @inner) as @inner; |args|<=2^14, 1<=s<=1024, sequential trip count <= 5 */
+/* program h0298i mode Metal : for (unsigned int i = (b & 15) << 1; -a <= i; i -= s; @inner) as @inner; |args|<=2^14, 1<=s<=1024, sequential trip count <= 5 */
 
 #include "vharness.h"
 /* ---- launch-model builtins (harness globals) ---- */
@@ -56,11 +56,12 @@ static void rec(void *out, long a, long b) { rec3(out, a, b, 0); }
   }
 }
 
-/* ---- translation emitted by occa for mode CUDA (normalised lexically) ---- */
+/* ---- translation emitted by occa for mode Metal (normalised lexically) ---- */
 
 
 
-  void _occa_h0298i_0(const int N, const int a, const int b, const int c, const int s, int * out) {
+
+ void _occa_h0298i_0(int N, int a, int b, int c, int s, int * out) {
   {
     int j = 0 + blockIdx.x;
     {
@@ -72,7 +73,7 @@ static void rec(void *out, long a, long b) { rec3(out, a, b, 0); }
 
 
 
-static void LAUNCH__occa_h0298i_0(unsigned long *outer, unsigned long *inner, int od, int id, const int N, const int a, const int b, const int c, const int s, int * out) {
+static void LAUNCH__occa_h0298i_0(unsigned long *outer, unsigned long *inner, int od, int id, int N, int a, int b, int c, int s, int * out) {
   if (outer[0] == 0 || outer[1] == 0 || outer[2] == 0 || inner[0] == 0 || inner[1] == 0 || inner[2] == 0) return;       /* empty grid: nothing runs */
   if ((long) outer[0] < 0 || (long) outer[1] < 0 || (long) outer[2] < 0 || (long) inner[0] < 0 || (long) inner[1] < 0 || (long) inner[2] < 0) launch_negative = 1;   /* a negative count stored into the unsigned occa::dim */
   if (outer[0] > 6 || outer[1] > 6 || outer[2] > 6 || inner[0] > 6 || inner[1] > 6 || inner[2] > 6) { launch_overflow = 1; return; }
